@@ -291,15 +291,34 @@ func (c *RawClient) buildRequest(op *Op, withAuth bool, attempt int) ([]byte, [1
 	if hasFlag(op, "unknownattr") {
 		setters = append(setters, rawAttr{stun.AttrType(0x7777), []byte{1, 2, 3, 4}})
 	}
+	// "aftermi": the last body attribute(s) travel behind MESSAGE-INTEGRITY, where anybody on
+	// the path could have put them: the request is authentic, those attributes are not part of it
+	var after []stun.Setter
+	if hasFlag(op, "aftermi") && withAuth && op.Kind != "binding" && len(body) > 0 {
+		k := 1
+		if op.Kind == "createperm" && len(body) > 1 {
+			k = len(body) - 1 // the first peer is the genuine one
+		}
+		after = body[len(body)-k:]
+		body = body[:len(body)-k]
+	}
 	setters = append(setters, body...)
 	pre, post := c.credSetters(op, withAuth && op.Kind != "binding")
 	setters = append(setters, pre...)
-	if !hasFlag(op, "nofp") {
+	if !hasFlag(op, "nofp") && len(after) == 0 {
 		setters = append(setters, stun.Fingerprint)
 	}
 	m, err := stun.Build(setters...)
 	if err != nil {
 		Fatalf("stun.Build: %v", err)
+	}
+	if len(after) > 0 && m.Contains(stun.AttrMessageIntegrity) {
+		for _, a := range after {
+			_ = a.AddTo(m)
+		}
+		if !hasFlag(op, "nofp") {
+			_ = stun.Fingerprint.AddTo(m)
+		}
 	}
 	if post != nil {
 		post(m)
